@@ -206,18 +206,14 @@ class FunctionCase:
             # the output, rounded to 12 significant digits, is a pole of the law (e.g. v = -c in
             # 1 / (1 + v / c)): the solution differs from the pole by less than the working
             # precision, so the residual at the returned number says nothing
-            try:
-                if outv.imag == 0 and outv != 0:
-                    exact = {k: sp.Rational(mpmath.nstr(mpmath.mpmathify(v).real, 70)) for k, v in {
-                        **sub, **consts}.items() if mpmath.mpmathify(v).imag == 0}
-                    exact[self.out_sym] = sp.Rational(mpmath.nstr(outv.real, 12))
-                    if len(exact) == len(sub) + len(consts) + 1:
-                        for side in (self.law.lhs, self.law.rhs):
-                            val = side.xreplace(exact)
-                            if val.has(sp.zoo, sp.nan, sp.oo, -sp.oo):
-                                return None
-            except Exception:
-                pass
+            if outv.imag == 0 and outv != 0:
+                try:
+                    rounded = mpmath.mpc(mpmath.mpf(mpmath.nstr(outv.real, 12, strip_zeros=False)))
+                    lr = evaluate(rounded)
+                    if any(mpmath.isnan(v) or mpmath.isinf(v) for v in lr):
+                        return None
+                except (ZeroDivisionError, TypeError, ValueError):
+                    return None
             # backward error: a sign change of the (real) residual within 1e-9 / 1e-12 relative of
             # the output, on either side
             try:
